@@ -79,7 +79,11 @@ def build_frame(pd, groups, chunk_of, part, nchunks=None):
                 continue
             for j in range(rows_of(gr["g"])):
                 rows.append((KEYVALS.get(gr["k"], 0), xval(gr["g"], j), "s%05d" % xval(gr["g"], j)))
-    df = pd.DataFrame({"p": pd.Series([r[0] for r in rows], dtype="int64"),
+    pcol = pd.Series([r[0] for r in rows], dtype="int64")
+    if part == "cat":
+        # the partition column as a categorical declaring ALL key values (most frames leave some unused)
+        pcol = pd.Series(pd.Categorical([r[0] for r in rows], categories=sorted(KEYVALS.values())))
+    df = pd.DataFrame({"p": pcol,
                        "x": pd.Series([r[1] for r in rows], dtype="int64"),
                        "s": pd.Series([r[2] for r in rows], dtype="str")})
     if not part:
@@ -351,7 +355,7 @@ def begin_event(opr, part):
     for s in steps:
         if s["c"] == "memremoveg":
             gs = list(s["gs"])
-    return {"ev": "begin", "kind": opr["kind"], "part": part, "frame": [sorted(set(c)) for c in frame],
+    return {"ev": "begin", "kind": opr["kind"], "part": bool(part), "frame": [sorted(set(c)) for c in frame],
             "bykey": any(s["c"] == "memsort" for s in steps) and opr["kind"] == "wrg",
             "sortp": any(s["c"] == "sortnames" for s in steps), "gs": gs}
 
@@ -393,6 +397,8 @@ def replay_history(args):
     out = {"hid": hid, "ops": [], "traces": [], "evals": 0}
     try:
         part = bool(hist[0]["part"])
+        if part and hid % 2 == 1:
+            part = "cat"          # every other partitioned history passes the partition column as a categorical
         i = 0
         step = 0
         prev_model, prev_ordered = [], True
@@ -416,7 +422,7 @@ def replay_history(args):
                 raised = e
             out["evals"] += 1
             info = {"step": step, "kind": opr["kind"], "viol": [], "drift": None}
-            sig = {"op": opr["kind"], "partitioned": part,
+            sig = {"op": opr["kind"], "partitioned": bool(part), "partition_dtype": ("categorical" if part == "cat" else "int"),
                    "sort_pnames": any(s["c"] == "sortnames" for s in opr["steps"]),
                    "sort_key": any(s["c"] == "memsort" for s in opr["steps"]) and opr["kind"] == "wrg"}
             if raised is not None:
